@@ -125,6 +125,7 @@ def plan(tier, seed):
     k = 16
     shards = [{"kind": "pairs", "tier": tier, "seed": seed, "shard": i, "nshards": k, "subprocess": True} for i in range(k)]
     shards.append({"kind": "tables", "tier": tier, "seed": seed, "n": 4000 if tier == "quick" else 60000, "subprocess": True})
+    shards.append({"kind": "scale", "tier": tier, "seed": seed, "subprocess": True})
     return shards
 
 
@@ -210,18 +211,15 @@ _RES = [0]
 _FACTORIES = {}
 
 
-def http_roundtrip(router, method, target, r):
-    """one request through the library's HTTPFactory channel on a StringTransport; returns (status, raw body)"""
+def channel_request(factory, method, target, r, proto=None):
+    """one request through a connection of this HTTPFactory (its real channel on a StringTransport, no reactor); `proto` is a
+    connection that was opened earlier (built but not yet connected); returns (status, raw body)"""
     import contextlib
     import io
     from twisted.internet.testing import StringTransport
     from twisted.internet.address import IPv4Address
-    from mpgameserver import http_server as H
-    fac = _FACTORIES.get(id(router))
-    if fac is None:
-        _FACTORIES.clear()
-        fac = _FACTORIES[id(router)] = (H.HTTPFactory(router=router), router)
-    proto = fac[0].buildProtocol(None)
+    if proto is None:
+        proto = factory.buildProtocol(None)
     tr = StringTransport(peerAddress=IPv4Address("TCP", "10.%d.%d.%d" % (r.randrange(256), r.randrange(256), r.randrange(1, 255)), r.randint(1024, 65000)))
     tr.setTcpNoDelay = lambda v: None
     proto.makeConnection(tr)
@@ -239,6 +237,16 @@ def http_roundtrip(router, method, target, r):
         return None, raw
     head, _, body = raw.partition(b"\r\n\r\n")
     return int(head.split(b" ", 2)[1]), body
+
+
+def http_roundtrip(router, method, target, r):
+    """one request through the library's HTTPFactory channel on a StringTransport; returns (status, raw body)"""
+    from mpgameserver import http_server as H
+    fac = _FACTORIES.get(id(router))
+    if fac is None:
+        _FACTORIES.clear()
+        fac = _FACTORIES[id(router)] = (H.HTTPFactory(router=router), router)
+    return channel_request(fac[0], method, target, r)
 
 
 def run_longlived(cfg, counters, violations, samples):
@@ -290,6 +298,264 @@ def run_longlived(cfg, counters, violations, samples):
                                        "case": {"table": chosen, "path": path, "lookup": i}})
                 break
     return done
+
+
+BIG_LITERALS = LITERALS + ["abc", "x", "news", "c"]
+BIG_PATHSEGS = PATHSEGS + ["news", "c"]
+
+
+def _first_match(routes, parsed, method, path):
+    """reference: the first registered route of the method that the grammar says matches; returns (route, bindings, parts),
+    None (nothing matches) or UNSPEC (an unspecified pair comes before any match)"""
+    for rt, parts in zip(routes, parsed):
+        if rt.method != method:
+            continue
+        v, b = ref_match(parts, path)
+        if v == UNSPEC:
+            return UNSPEC
+        if v == MATCH:
+            return (rt, b, parts)
+    return None
+
+
+def _random_pattern(r, param_first):
+    k = r.randint(1, 3)
+    segs = []
+    for i in range(k):
+        if (i == 0 and param_first) or (i > 0 and r.random() < 0.4):
+            segs.append(":p%d" % i + (r.choice(["", "", "?", "+", "*"]) if i == k - 1 else ""))
+        else:
+            segs.append(r.choice(BIG_LITERALS))
+    if param_first and r.random() < 0.1:
+        return "/"
+    return "/" + "/".join(segs)
+
+
+def _random_path(r, heads):
+    k = r.randint(0, 4)
+    segs = [r.choice(BIG_PATHSEGS) for _ in range(k)]
+    if segs and heads and r.random() < 0.6:
+        segs[0] = r.choice(heads)
+    return "/" + "/".join(segs) + ("/" if r.random() < 0.2 else "")
+
+
+def run_large_tables(cfg, counters, violations, samples, distinct):
+    """route tables of 17-60 routes of one method in which routes that begin with a parameter and routes that begin with a
+    literal are mixed in every order, registered in pieces while the router is being used: at every stage the FIRST registered
+    matching route of the method answers (reference: a linear scan of the registered routes with the reference matcher)"""
+    from mpgameserver.http_server import Router, Route, Request, Response
+    r = rng("C16", cfg["seed"], "large-tables")
+    n_tables = 40 if cfg["tier"] == "quick" else 600
+
+    def report(mech, msg, case):
+        counters.inc("viol:" + mech)
+        if sum(1 for v in violations if v["mechanism"] == mech) < 8:
+            violations.append({"mechanism": mech, "msg": msg, "case": case})
+
+    for t in range(n_tables):
+        main = r.choice(["GET", "POST", "DELETE", "PUT"])
+        other = r.choice([m for m in ("GET", "POST", "DELETE", "PUT") if m != main])
+        size = r.randint(17, 60)
+        frac_param = r.choice([0.1, 0.3, 0.5])
+        spec = [(main, _random_pattern(r, r.random() < frac_param)) for _ in range(size)]
+        spec += [(other, _random_pattern(r, r.random() < frac_param)) for _ in range(r.randint(0, 5))]
+        r.shuffle(spec)
+        routes = [Route("r%d" % j, meth, pat, (lambda req, _n="r%d" % j: Response(payload=_n))) for j, (meth, pat) in enumerate(spec)]
+        parsed = [parse_pattern(pat) for _, pat in spec]
+        heads = sorted({pp[0][1] for pp in parsed if pp and pp[0][0] == "lit"})
+        # does a parameter-first (or root) route of the main method come before a literal-first one?  (the order that matters)
+        seen_param = False
+        for (meth, _), pp in zip(spec, parsed):
+            if meth != main:
+                continue
+            if not pp or pp[0][0] == "param":
+                seen_param = True
+            elif seen_param:
+                counters.inc("large_tables_with_parameter_first_route_before_literal_first_route")
+                break
+        counters.inc("large_tables")
+        router = Router()
+        registered = 0
+        stage = 0
+        failed = False
+        while not failed:
+            # lookups on what is registered so far (also before anything is registered, and across the growth of the table)
+            final = registered == len(routes)
+            for q in range(60 if final else 5):
+                path = _random_path(r, heads)
+                method = main if r.random() < 0.85 else other
+                want = _first_match(routes[:registered], parsed[:registered], method, path)
+                if want == UNSPEC:
+                    counters.inc("unspecified_not_judged")
+                    continue
+                counters.inc("large_table_lookups")
+                if not final:
+                    counters.inc("large_table_lookups_between_registrations")
+                if want is not None and want[0] is not routes[[rt.method for rt in routes].index(method)]:
+                    counters.inc("large_table_lookups_answered_by_a_later_route")
+                distinct.add(h64("large", spec[:registered], method, path))
+                res = router.getRoute(method, path)
+                bad = mech = None
+                if want is None:
+                    if res is not None:
+                        mech, bad = "large-table-overmatch", "matched %s (%r), grammar says no registered route matches" % (res[0].name, res[0].pattern)
+                elif res is None:
+                    mech, bad = "large-table-registered-route-not-found", "no match, grammar says %s (%r) matches" % (want[0].name, want[0].pattern)
+                elif res[0] is not want[0]:
+                    mech, bad = "large-table-first-match", "chose %s (%r), the first registered matching route is %s (%r)" % (
+                        res[0].name, res[0].pattern, want[0].name, want[0].pattern)
+                elif not bindings_agree(want[2], want[1], res[1]):
+                    mech, bad = "large-table-wrong-binding", "bindings %r, grammar says %r" % (res[1], want[1])
+                if not bad and q % 3 == 0:
+                    req = Request(("10.%d.%d.%d" % (r.randrange(256), r.randrange(256), r.randrange(256)), 1000 + r.randrange(50000)),
+                                  method, path, {}, "", {}, None)
+                    resp = router.dispatch(req)
+                    counters.inc("dispatches")
+                    if resp.status_code == 429:
+                        counters.inc("rate_limited_not_judged")
+                    elif want is None:
+                        if resp.status_code != 404:
+                            mech, bad = "large-table-overmatch", "dispatch status %d, expected 404" % resp.status_code
+                        else:
+                            counters.inc("large_table_dispatch_404")
+                    elif resp.status_code == 404:
+                        mech, bad = "large-table-registered-route-not-found", "dispatch 404 although %s matches" % want[0].name
+                    elif resp.payload != want[0].name.encode():
+                        mech, bad = "large-table-first-match", "dispatch ran %r, expected %s" % (resp.payload, want[0].name)
+                    else:
+                        counters.inc("large_table_dispatch_routed")
+                if bad:
+                    report(mech, "table of %d routes (%d registered so far, %d of method %s), %s %r: %s" % (
+                        len(routes), registered, sum(1 for rt in routes[:registered] if rt.method == method), method, method, path, bad),
+                        {"table": spec[:registered], "method": method, "path": path, "registration_stage": stage})
+                    failed = True
+                    break
+            if final:
+                break
+            # the next piece: the whole rest, a chunk, or one route
+            mode = (t + stage) % 3 if stage else t % 4
+            step = len(routes) - registered if mode == 3 else (r.randint(1, 20) if mode != 1 else 1)
+            step = min(step, len(routes) - registered)
+            router.registerRoutes(routes[registered:registered + step])
+            registered += step
+            stage += 1
+        if len(samples) < 6 and t == 0:
+            samples.append({"large_table": spec[:8] + ["... %d routes" % len(spec)]})
+
+
+def run_factories(cfg, counters, violations, samples, distinct):
+    """several HTTPFactory objects with DIFFERENT routers alive in one process (a public and an admin listener, say): requests
+    arrive through the real channel of each of them in an interleaved order, and each is answered from the route table of the
+    router its own factory was given - first registered matching route, 404 when that router has none"""
+    from mpgameserver import http_server as H
+    from mpgameserver.http_server import Router, Route, Response
+    r = rng("C16", cfg["seed"], "factories")
+    maxp, maxs = BOUNDS[cfg["tier"]]
+    pats = all_patterns(min(maxp, 3))
+    paths = [p for p in all_paths(min(maxs, 3)) if not p.startswith("//") and not any(ch in p for ch in " ?#;\r\n\t")]
+    n_groups = 40 if cfg["tier"] == "quick" else 500
+    for g in range(n_groups):
+        nf = r.randint(2, 4)
+        tables = []
+        for f in range(nf):
+            k = r.randint(1, 4)
+            spec = [(r.choice(["GET", "GET", "DELETE"]), r.choice(pats)) for _ in range(k)]
+            if f and r.random() < 0.3:
+                spec = list(tables[0][0])            # the same patterns on two listeners: still two different routers
+            routes = [Route("<f%d.r%d>" % (f, j), meth, pat, (lambda req, _n="<f%d.r%d>" % (f, j): Response(payload=_n)))
+                      for j, (meth, pat) in enumerate(spec)]
+            router = Router()
+            router.registerRoutes(routes)
+            tables.append((spec, routes, [parse_pattern(pat) for _, pat in spec], router))
+        # paths on which the routers of the group disagree (one has a route, another has none or another one), plus any path
+        def verdicts(method, path):
+            return [_first_match(tb[1], tb[2], method, path) for tb in tables]
+        cand = []
+        for path in r.sample(paths, 300):
+            for method in ("GET", "DELETE"):
+                vs = verdicts(method, path)
+                if UNSPEC in vs:
+                    continue
+                if len({(v[0].pattern if v else None) for v in vs}) > 1 or len(cand) < 4:
+                    cand.append((method, path))
+        if not cand:
+            continue
+        counters.inc("factory_groups")
+        factories = []
+        early = []                       # connections opened (protocol built) before the later factories exist
+
+        def ask(f, method, path, proto=None, when=""):
+            vs = verdicts(method, path)
+            want = vs[f]
+            if UNSPEC in vs:
+                return True
+            suffix = r.choice(["", "", "?x=1", "/"]) if not path.endswith("/") and path != "/" else ""
+            if suffix == "/" and UNSPEC in verdicts(method, path + "/"):
+                suffix = ""
+            # (one optional trailing slash is tolerated: the verdict is the same)
+            try:
+                status, body = channel_request(factories[f], method, path + suffix, r, proto=proto)
+            except Exception as e:
+                status, body = None, repr(e).encode()
+            counters.inc("http_channel_requests")
+            counters.inc("factory_requests")
+            distinct.add(h64("factories", [tb[0] for tb in tables], f, len(factories), method, path + suffix))
+            if status == 429:
+                counters.inc("rate_limited_not_judged")
+                return True
+            if want is None:
+                ok = status == 404
+            else:
+                ok = status is not None and status != 404 and want[0].name.encode() in body
+            if ok:
+                later = f < len(factories) - 1
+                counters.inc("factory_%s_on_%s_factory" % ("404" if want is None else "routed", "an_earlier_built" if later else "the_latest_built"))
+                if later and len({(v[0].pattern if v else None) for v in vs}) > 1:
+                    counters.inc("factory_requests_deciding_between_live_routers")
+                return True
+            # does the answer come from the table of ANOTHER live factory's router?
+            foreign = None
+            for f2 in range(len(factories)):
+                if f2 == f:
+                    continue
+                v2 = vs[f2]
+                if (v2 is None and status == 404) or (v2 is not None and v2[0].name.encode() in body):
+                    foreign = f2
+                    break
+            mech = "http-factory-answered-by-another-factorys-router" if foreign is not None else "http-factory-misrouted"
+            counters.inc("viol:" + mech)
+            if sum(1 for v in violations if v["mechanism"] == mech) < 8:
+                violations.append({"mechanism": mech,
+                                   "msg": "%d factories alive (built in order 0..%d), %s %r on a connection of factory %d%s: status %r body %r; its router %r says %s%s" % (
+                                       len(factories), len(factories) - 1, method, path + suffix, f, when, status, body[-40:], tables[f][0],
+                                       ("route %s" % want[0].name) if want else "404",
+                                       ("; that is the answer of factory %d's router %r" % (foreign, tables[foreign][0])) if foreign is not None else ""),
+                                   "case": {"tables": [tb[0] for tb in tables], "factory": f, "factories_alive": len(factories), "method": method, "target": path + suffix}})
+            return False
+
+        ok = True
+        for f in range(nf):
+            factories.append(H.HTTPFactory(router=tables[f][3]))
+            if f < nf - 1 and r.random() < 0.5:
+                early.append((f, factories[f].buildProtocol(None)))
+            # right after a factory is built: a request on it and one on each factory built before it
+            for f2 in r.sample(range(f + 1), f + 1):
+                method, path = r.choice(cand)
+                ok = ask(f2, method, path) and ok
+            if not ok:
+                break
+        if ok:
+            for f, proto in early:
+                method, path = r.choice(cand)
+                ok = ask(f, method, path, proto=proto, when=" (opened before the later factories were built)") and ok
+                counters.inc("factory_requests_on_connections_opened_before_a_later_factory")
+        if ok:
+            for i in range(10):
+                method, path = r.choice(cand) if i % 4 else (r.choice(["GET", "DELETE"]), r.choice(paths))
+                if not ask(r.randrange(nf), method, path):
+                    break
+        if len(samples) < 8 and g == 0:
+            samples.append({"factories": [tb[0] for tb in tables]})
 
 
 def run_tables(cfg, counters, violations, samples):
@@ -509,6 +775,12 @@ def run_shard(cfg):
         n = run_pairs(cfg, counters, violations, samples)
         return {"evaluations": n, "distinct_count": n - counters.get("unspecified_not_judged", 0),
                 "counters": dict(counters), "violations": violations, "samples": samples}
+    if cfg["kind"] == "scale":
+        distinct = set()
+        run_large_tables(cfg, counters, violations, samples, distinct)
+        run_factories(cfg, counters, violations, samples, distinct)
+        return {"evaluations": counters.get("large_table_lookups", 0) + counters.get("factory_requests", 0), "distinct": sorted(distinct),
+                "counters": dict(counters), "violations": violations, "samples": samples}
     distinct = run_tables(cfg, counters, violations, samples)
     run_longlived(cfg, counters, violations, samples)
     return {"evaluations": counters.get("table_lookups", 0) + counters.get("longlived_lookups", 0) + counters.get("http_channel_requests", 0), "distinct": sorted(distinct),
@@ -520,7 +792,11 @@ def finish(tier, seed, results):
     inconclusive = []
     need(m["counters"], ["pairs", "ref_match", "ref_nomatch", "bindings_checked", "table_lookups",
                          "dispatch_404", "dispatch_routed", "lookups_between_registrations", "tables_from_resource_classes", "longlived_lookups", "http_channel_routed", "http_channel_requests_with_fragment",
-                         "dispatch_websocket_route_without_upgrade", "patterns_spelled_with_extra_slashes", "overlapping_tables"], inconclusive)
+                         "dispatch_websocket_route_without_upgrade", "patterns_spelled_with_extra_slashes", "overlapping_tables",
+                         "large_table_lookups", "large_table_lookups_between_registrations", "large_tables_with_parameter_first_route_before_literal_first_route",
+                         "large_table_lookups_answered_by_a_later_route", "large_table_dispatch_routed", "large_table_dispatch_404",
+                         "factory_routed_on_an_earlier_built_factory", "factory_404_on_an_earlier_built_factory", "factory_requests_deciding_between_live_routers",
+                         "factory_requests_on_connections_opened_before_a_later_factory"], inconclusive)
     maxp, maxs = BOUNDS[tier]
     cov = {
         "evaluations": m["evaluations"],
@@ -529,7 +805,10 @@ def finish(tier, seed, results):
                 "segment) x every path of <=%d segments over %r with and without a trailing slash (distinct by construction; "
                 "pairs where an empty segment falls into a ?/+/* position are unspecified and excluded from "
                 "distinct_nontrivial); tables: seeded tables of 1-4 routes over two methods in every registration order, "
-                "first-match/method/404 checked through getRoute and dispatch (distinct by hash of table+request)" % (
+                "first-match/method/404 checked through getRoute and dispatch (distinct by hash of table+request); large tables: "
+                "seeded tables of 17-60 routes of one method mixing parameter-first and literal-first routes, registered in pieces "
+                "with judged lookups at every stage; factories: groups of 2-4 live HTTPFactory objects with different routers, "
+                "requests interleaved through their real channels" % (
                     maxp, LITERALS, maxs, PATHSEGS),
         "exhaustive": True,
         "exhaustive_scope": "the pairs part (the stated bounded grammar); the tables part is a seeded sample",
